@@ -657,6 +657,50 @@ def _positive_under_guard(fn: ast.AST, lp: ast.While, st: ast.stmt, name: str) -
     return False
 
 
+def _advances_by_value_flow(mod, fn: ast.AST, lp: ast.While, var: str) -> bool:
+    """the loop variable at the end of one (symbolically executed) iteration is strictly greater than at its start, on every
+    path that completes the iteration: it is the end position returned by decode_varint(buf, p) for a p at or beyond the start
+    (a varint is at least one byte long, or decode_varint raises), possibly plus non-negative amounts (constants, decoded
+    lengths, entries of a constant table of non-negative widths, len(..))"""
+    if len([x for x in ast.walk(fn) if isinstance(x, ast.While)]) != 1:
+        return False
+    inits = [a.value for a in fn.body if isinstance(a, ast.Assign) and len(a.targets) == 1 and isinstance(a.targets[0], ast.Name) and a.targets[0].id == var]
+    if len(inits) != 1 or not isinstance(inits[0], ast.Constant):
+        return False
+    base = C(inits[0].value)
+    paths = Interp(mod).run(fn)
+
+    def nonneg(t: Sym) -> bool:
+        if t[0] == "c":
+            return isinstance(t[1], int) and not isinstance(t[1], bool) and t[1] >= 0
+        if t[0] == "item" and t[1][0] == "call" and dotted(t[1][1]) == "decode_varint" and t[2] == 0:
+            return True                     # a decoded varint is non-negative
+        if t[0] == "call" and dotted(t[1]) == "len":
+            return True
+        if t[0] == "call" and t[1][0] == "a" and t[1][2] == "get" and t[1][1][0] == "c" and isinstance(t[1][1][1], dict) and len(t[2]) == 1:
+            return all(isinstance(v, int) and not isinstance(v, bool) and v >= 0 for v in t[1][1][1].values())
+        if t[0] == "sub" and t[1][0] == "c" and isinstance(t[1][1], dict):
+            return all(isinstance(v, int) and not isinstance(v, bool) and v >= 0 for v in t[1][1].values())
+        if t[0] == "op" and t[1] in ("+", "*") and len(t) == 4:
+            return nonneg(t[2]) and nonneg(t[3])
+        return False
+
+    def ge(t: Sym) -> bool:
+        return t == base or gt(t)
+
+    def gt(t: Sym) -> bool:
+        if t[0] == "item" and t[1][0] == "call" and dotted(t[1][1]) == "decode_varint" and t[2] == 1 and len(t[1][2]) == 2:
+            return ge(t[1][2][1])
+        if t[0] == "op" and t[1] == "+" and len(t) == 4:
+            return (gt(t[2]) and nonneg(t[3])) or (gt(t[3]) and nonneg(t[2]))
+        return False
+
+    done = [p for p in paths if p.outcome in ("fall", "return") and p.locals.get(var) is not None and p.locals.get(var) != base]
+    looping = [p for p in paths if p.outcome in ("fall", "return")]
+    # a path that leaves without having changed the variable never entered the loop (or ended at its head)
+    return bool(done) and all(gt(p.locals[var]) for p in done) and all(p in done or not any(e.kind == "yield" for e in p.events) for p in looping)
+
+
 def rule_M5(ctx) -> None:
     mod = ctx.repo.mod(M_INIT)
     sites = []
@@ -707,6 +751,8 @@ def rule_M5(ctx) -> None:
             if isinstance(st, ast.AugAssign) and isinstance(st.target, ast.Name) and st.target.id == var and isinstance(st.op, ast.Add):
                 if isinstance(st.value, ast.Constant) and isinstance(st.value.value, int) and st.value.value > 0:
                     prog.add(nd.id)
+                elif isinstance(st.value, ast.Name) and _positive_under_guard(fn, lp, st, st.value.id):
+                    prog.add(nd.id)             # pos += width under `if width:` with width only ever 0 / 4 / 8
             if isinstance(st, ast.Assign):
                 # i = i + k / (x, i) = decode_varint(buf, i) / decoded, i = buf[i:i+8], i + 8
                 for tgt in st.targets:
@@ -731,6 +777,9 @@ def rule_M5(ctx) -> None:
             back = g.reachable(starts, avoid=prog, labels=normal_edge)
             if h.id in back:
                 ok = False
+        if not ok and _advances_by_value_flow(mod, fn, lp, var):
+            ctx.proved("M5", name, mod.loc(lp), f"every iteration ends with `{var}` strictly beyond where it started (value flow: a decoded varint's end position plus non-negative widths)")
+            continue
         if ok:
             ctx.proved("M5", name, mod.loc(lp), f"every iteration advances `{var}`")
         else:
